@@ -314,12 +314,13 @@ KEY_POOL = [["s", x] for x in ["rep 1", "rep_1", "rep-1", "rep.1", "k_in*2", "k_
                                "f(1,2)", "A", "a", "0.1", "0,1", "α", "a b", "a  b", "-1", "_1", "x\ty", "50%", "50$",
                                "[1]", "{1}", "k1=2", "k1 2", "é", "e", "", " "]] \
     + [["n", x] for x in [0, 1, 2, 7, -1, 0.5, 1.5, 0.001, 1e6]] \
-    + [["t", [["n", 1], ["n", 2]]], ["t", [["n", 1], ["n", 3]]], ["t", [["n", 2], ["s", "a"]]], ["t", [["n", 0.5], ["n", 1]]]]
+    + [["t", [["n", 1], ["n", 2]]], ["t", [["n", 1], ["n", 3]]], ["t", [["n", 2], ["s", "a"]]], ["t", [["n", 0.5], ["n", 1]]]] \
+    + [["s", x] for x in ["k_in/2", "k_in/3", "a/b/c", "1", "7", "(1, 2)", "0.5", "..", ".", "%41", "A%", "a\\b"]]
 
 
 def unusual_keys(rng, keys):
-    """-> realkeys for the labels of `keys`: drawn from KEY_POOL with pairwise different str() (keys of different
-    type whose str() coincide are the listed finding F-C19-2 and have their own fixed cases)"""
+    """-> realkeys for the labels of `keys`: pairwise different keys drawn from KEY_POOL (text that differs only in
+    punctuation, the same text under different types, path separators: every key owns its result)"""
     chosen, seen = [], set()
     pool = KEY_POOL[:]
     rng.shuffle(pool)
@@ -327,8 +328,8 @@ def unusual_keys(rng, keys):
     i = rng.randrange(0, 28)
     pool = [KEY_POOL[i], KEY_POOL[i + 1]] + pool
     for ks in pool:
-        st = str(decode_key(ks))
-        if st not in seen:
+        st = decode_key(ks)
+        if st not in seen:  # equal as dict keys (1 == 1.0 == True) is the same key
             seen.add(st)
             chosen.append(ks)
         if len(chosen) == len(keys):
@@ -338,9 +339,10 @@ def unusual_keys(rng, keys):
 
 
 def outside_model(case) -> bool:
-    """keys for which `name_fn` is not an injective plain file name: the model's paths `final k` do not describe them"""
-    ks = [str(v) for v in real_keys(case).values()]
-    return len(set(ks)) != len(ks) or any("/" in x or "\0" in x or len(x) > 200 for x in ks)
+    """key sets that the SHIPPED default name_fn does not map to distinct plain file names: the model's paths `final k`
+    (one file per key) do not describe them"""
+    ks = [_fname(v) for v in real_keys(case).values()]
+    return len(set(ks)) != len(ks) or any("/" in x or "\0" in x or len(x) > 250 for x in ks)
 
 
 def seq_case(cid, specs, victim_idx, c, reruns=(0, 0)):
@@ -545,6 +547,44 @@ def scan_stratum(ctx):
         _scan_stratum(ctx)
 
 
+def dupfn(v):
+    return v * 2
+
+
+def dup_stratum(ctx):
+    """two inputs under ONE key: without a cache both are computed; with a cache the run must either refuse visibly or
+    still return what the uncached run returns — never serve one input's result for the other"""
+    import numpy as np
+    from mxlpy.parallel import Cache, parallelise
+    d = SCRATCH / f"dup-{os.getpid()}"
+    for name, inputs in [("same-key-twice", [("a", 1), ("b", 2), ("a", 3)]),
+                         ("equal-number-keys", [(0.5, 1), (np.float64(0.5), 2)]),
+                         ("one-and-true", [(1, 5), (True, 6), (2, 7)])]:
+        for par in (False, True):
+            shutil.rmtree(d, ignore_errors=True)
+            plain = parallelise(dupfn, inputs, parallel=par, max_workers=2, disable_tqdm=True)
+            try:
+                cached = parallelise(dupfn, inputs, cache=Cache(tmp_dir=d), parallel=par, max_workers=2, disable_tqdm=True)
+                R = "same-as-uncached" if [v for _, v in cached] == [v for _, v in plain] else f"different:{[v for _, v in cached]}"
+            except ValueError:
+                R = "refused"
+            M = None
+            if ctx.driver_ok:
+                labels = {}
+                ins = [[labels.setdefault(k, f"k{len(labels)}"), 10 + i] for i, (k, _) in enumerate(inputs)]
+                (resp,) = driver.call_batch([{"op": "c19", "mode": "gen", "sizes": [[10 + i, 5] for i in range(len(inputs))],
+                                              "inputs": ins, "script": [["run"]]}])
+                out = resp[0]["out"]
+                M = "refused" if out == "refused" else (
+                    "same-as-uncached" if out[0] == "ok" and [w for _, w in out[1]] == [v for _, v in ins] else f"different:{out}")
+            case = {"dup": name, "parallel": par}
+            ctx.count(case, f"dup:{name}:parallel={par}")
+            ok = {"refused", "same-as-uncached"}
+            ctx.judge(case, "ok" if R in ok else R, "ok", None if M is None else ("ok" if M in ok else M),
+                      what=f"repeated key with a cache: {R} (model: {M})")
+    shutil.rmtree(d, ignore_errors=True)
+
+
 def _scan_stratum(ctx):
     import numpy as np
     import pandas as pd
@@ -572,7 +612,16 @@ def _scan_stratum(ctx):
                     log = d / f"{name}-{par}-{lname}.log"
                     inner = scan._steady_state_worker if name == "steady_state" else scan._time_course_worker
                     plain = frames(call(parallel=par))
-                    first = frames(call(parallel=par, cache=Cache(tmp_dir=cdir)))
+                    try:
+                        first = frames(call(parallel=par, cache=Cache(tmp_dir=cdir)))
+                    except ValueError:
+                        # a visible refusal (repeated labels cannot own separate files) is acceptable; it must then
+                        # not depend on the run: refused again, and nothing served
+                        case = {"scan": name, "parallel": par, "labels": lname}
+                        ctx.count(case, f"scan.{name}:parallel={par}:{lname}:refused")
+                        ctx.judge(case, {"refused_for_repeated_labels": lname == "repeated"},
+                                  {"refused_for_repeated_labels": True}, None, what=f"scan.{name} refused the cache")
+                        continue
                     log.write_text("")
                     again = frames(call(parallel=False, cache=Cache(tmp_dir=cdir), worker=CountingWorker(inner, str(log))))
                     case = {"scan": name, "parallel": par, "labels": lname}
@@ -623,6 +672,7 @@ def run(ctx):
         for c, R, M in zip(cases, Rs, Ms):
             judge_case(ctx, c, R, M)
         scan_stratum(ctx)
+        dup_stratum(ctx)
     finally:
         shutil.rmtree(SCRATCH, ignore_errors=True)
     if not ctx.proof_ok or ctx.drift:
